@@ -338,7 +338,7 @@ def generate(rng, thorough):
         progs.append(gen_defect(rng, "hoisted", k))
     for k in LOOPTOP:
         progs.append(gen_defect(rng, "looptop", k))
-    for _ in range(300 if thorough else 30):
+    for _ in range(300 if thorough else 24):
         progs.append(gen_random(rng))
     return progs
 
@@ -397,6 +397,34 @@ def servo_family(ctx, thorough):
             ctx.fail("Servo attach-before-write (executed firmware): a Servo object is written before it was attached / a Servo name is not attached exactly once",
                      {"src": p["src"], "family": "pinexpr-servo", "servos": len(p["names"])},
                      "every SVW/SVU on an attached object; one attach per Servo name", bad, key="pinexpr-servo-attach")
+    return judged
+
+
+def gen_backlight(rng):
+    """parallel LCD whose backlight pin is `base + k`, base never re-assigned (pinMode hoisted to the top of setup())"""
+    a, k = rng.choice([4, 6]), rng.choice([2, 3, 5])
+    arg = rng.choice([f"base + {k}", "base"])
+    src = ("from Reduino.Displays import LCD\n" f"base = {a}\n"
+           f"lcd = LCD(rs=12, en=11, d4=5, d5=4, d6=3, d7=2, cols=16, rows=2, backlight_pin={arg})\n"
+           f"lcd.brightness({rng.choice([10, 100, 200])})\nwhile True:\n    lcd.brightness(50)\n")
+    return {"src": src, "cls": "lcd_backlight"}
+
+
+def backlight_family(ctx, thorough):
+    progs = [gen_backlight(ctx.rng) for _ in range(6 if thorough else 2)]
+    ts = fw.transpile_many([p["src"] for p in progs])
+    ok_i = [i for i, t in enumerate(ts) if t["ok"]]
+    judged = 0
+    for i, o in zip(ok_i, fw.run_sketches([{"cpp": ts[i]["cpp"], "input": "", "loops": NP} for i in ok_i])):
+        if not o["compiled"] or o["rc"] != 0:
+            continue
+        real = abstract_events(o["events"])
+        ok, bad = py_cbu(real)
+        judged += 1
+        if not ok or not any(e[0] == "u" for e in real):
+            ctx.fail("configured-before-use (executed firmware, numeric pins): LCD backlight pin written without an earlier pinMode for it",
+                     {"src": progs[i]["src"], "family": "pinexpr"}, "analogWrite(p) preceded by pinMode(p, OUTPUT)",
+                     {"first_unconfigured_access": list(bad[1]) if bad else None, "trace": [list(e) for e in real[:20]]}, key="pinexpr-cbu")
     return judged
 
 
@@ -524,14 +552,16 @@ def run_family(ctx, findings):
             if "model" in rec and canon(rec["model"]) != canon(rec["real"]):
                 ctx.disagree("pin expressions: model does not reproduce the known-finding witness trace", w["src"], canon(rec["model"]), canon(rec["real"]))
     n_servo = servo_family(ctx, thorough)
-    dist = {"servo_scripts_judged_on_the_object (attach once per name, every write on an attached object)": n_servo,
+    n_bl = backlight_family(ctx, thorough)
+    dist = {"lcd_backlight_scripts_judged (variable backlight pin, never re-assigned)": n_bl,
+            "servo_scripts_judged_on_the_object (attach once per name, every write on an attached object)": n_servo,
             "classes": cls, "sketches_run": stats.get("sketches", 0), "sketches_not_compiled": stats.get("not_compiled", 0),
             "rejected_by_parse": stats.get("rejected", 0), "numeric_pin_events_compared": stats.get("events", 0),
             "inside_guard_judged_by_the_monitor": stats.get("inside", 0), "outside_guard_correspondence_only": stats.get("outside", 0),
             "inside_guard_where_text_only_keys_would_differ": name_matters,
             "declarations_before_the_loop": kinds_pre, "declarations_at_loop_top": kinds_loop,
             "extracted_monitor_runs_on_real_traces": stats.get("monitor_runs", 0)}
-    return len(progs) + n_servo + stats.get("monitor_runs", 0), dist, [progs[0]["src"], progs[-1]["src"]]
+    return len(progs) + n_servo + n_bl + stats.get("monitor_runs", 0), dist, [progs[0]["src"], progs[-1]["src"]]
 
 
 def _tup(s):
